@@ -165,12 +165,17 @@ _poll_and_add_to_jobs_(struct qb_loop_source *src, int32_t ms_timeout)
 next_batch:
 	rounds--;
 
-retry_poll:
-
 	event_count = epoll_wait(s->epollfd, events, MAX_EVENTS, ms_timeout);
 
 	if (errno == EINTR && event_count == -1) {
-		goto retry_poll;
+		/*
+		 * Interrupted by a signal the application handles itself.
+		 * Waiting again with the same timeout would put off the
+		 * timers by the time already slept (for ever, with a signal
+		 * that keeps coming): nothing is ready as far as we know,
+		 * the loop works out a new timeout.
+		 */
+		return new_jobs;
 	} else if (event_count == -1) {
 		return (new_jobs > 0) ? new_jobs : -errno;
 	}
